@@ -340,6 +340,8 @@ def harness_run(prop, seed, n, tier, only=None, extra=None, workname=None):
 
 
 LAST_ABORT = {}
+LAST_OUTCOME = {}
+DEFER_OUTPUT = [False]
 
 
 def driver_run(prop, cases, mode=None):
@@ -573,8 +575,12 @@ class Report:
         os.makedirs(EVIDENCE, exist_ok=True)
         with open(os.path.join(EVIDENCE, f"{prop}.json"), "w") as f:
             json.dump(ev, f, indent=1)
-        for l in lines:
-            print(l, flush=True)
+        LAST_OUTCOME.clear()
+        LAST_OUTCOME.update({"status": status, "lines": lines,
+                             "no_input": any(l.endswith("no-failing-input-found") for l in lines)})
+        if not DEFER_OUTPUT[0]:
+            for l in lines:
+                print(l, flush=True)
         log(
             f"{prop} {self.tier}: obligations {n_ok}/{n_obl}, cases {self.evaluations}, "
             f"distinct non-trivial {len(self.keys)}, spec failures {len(self.spec_fail)}, "
@@ -589,7 +595,11 @@ def standard_prologue(rep, prop, lean_targets, audit_modules, theorems, need_har
     Records one obligation per theorem (compiled + axioms allowed)."""
     ok, out = run_translator()
     rep.obligation("translator:regenerate-Gen", ok, out)
-    okb, outb = lake_build(lean_targets + ["driver"])
+    # the judge first: when a proof module no longer builds, the search for a failing input still has to run
+    okd, outd = lake_build(["driver"])
+    if not okd:
+        rep.obligation("lake-build:driver", False, outd[-6000:])
+    okb, outb = lake_build(lean_targets)
     if not okb:
         # find which module failed
         failed = re.findall(r"^- (\S+)", outb, re.M)
@@ -621,8 +631,8 @@ def standard_prologue(rep, prop, lean_targets, audit_modules, theorems, need_har
     if need_harness:
         okh, outh = build_harness()
         rep.obligation("harness-builds-against-working-tree", okh, outh[-6000:])
-        return okb and okh
-    return okb
+        return okd and okh
+    return okd
 
 
 def parse_args(argv):
